@@ -169,7 +169,7 @@ func diffMap(old map[string]interface{}, newAny interface{}) interface{} {
 				d[k] = innerD
 			}
 		} else {
-			d[k] = newV
+			d[k] = markReplaced(newV)
 		}
 	}
 
